@@ -193,6 +193,7 @@ def explore_markup(S, K, want=('C08',)):
             def describe(mdl):
                 return dict(children=list(combo), scope=('Document', 'ContentBlock', 'Strong', 'Item')[model_int(mdl, scope)], multiline=model_bool(mdl, ml),
                             suppressed=model_bool(mdl, c0_.get('break_suppressed')),
+                            blank_lines_upper_bound=(model_int(mdl, cfg.get('blank_lines_upper_bound')) if is_sym(cfg.get('blank_lines_upper_bound')) else cfg.get('blank_lines_upper_bound')),
                             ws={str(i): kids[i].text.concrete(mdl) for i, c in enumerate(combo) if c in ('space', 'par')})
             try:
                 d = m.call_fn(fn, [pr, c0_, Ast('Markup', markup), CEnum('MarkupScope', scope, 64)])
@@ -394,8 +395,9 @@ def confirm_markup(S, info):
     for v in variants:
         if v is None or S.driver.call('erroneous', hexs(v))[1] == '1':
             continue
-        for w in (80, 0):
-            r = S.driver.call('format', hexs(v), w, 2, 0)
+        blub = info.get('blank_lines_upper_bound')
+        for w, bl in [(80, None), (0, None)] + ([(80, min(blub, 1 << 20))] if isinstance(blub, int) and blub != 2 else []):
+            r = S.driver.call('format', hexs(v), w, 2, 0, *([bl] if bl is not None else []))
             if r[0] != 'ok':
                 return dict(what='format fails (%s) on %s' % (r[0], show(v)), api=dict(api='Typstyle::format_content', source=v, width=w))
             out = unhexs(r[1])
@@ -413,8 +415,8 @@ def confirm_markup(S, info):
                     exp = expected_class(between_src) if between_src else 'none'
                     got = classify_ws(out[prev_end:j])
                     if got != exp and not (kinds[i] == 'item' or kinds[prev_idx] == 'item'):
-                        return dict(what='whitespace between %s and %s is %s in %s but %s in the output %s' % (toks[prev_idx], t, exp, show(v), got, show(out)),
-                                    api=dict(api='Typstyle::format_content', source=v, width=w, output=out))
+                        return dict(what='whitespace between %s and %s is %s in %s but %s in the output %s%s' % (toks[prev_idx], t, exp, show(v), got, show(out), '' if bl is None else ' (Config.blank_lines_upper_bound = %d)' % bl),
+                                    api=dict(api='Typstyle::format_content', source=v, width=w, output=out, blank_lines_upper_bound=bl))
                 prev_end = j + len(t)
                 prev_idx = i
                 pos = prev_end
